@@ -7,8 +7,12 @@ import StorageModel.Base.Bytes
     modelled over `Int` with `le w n` = the `w` little-endian bytes of `n mod 256^w`;
   * float64: the 8 little-endian bytes of `math.Float64bits(v)`; the model carries the bit pattern
     (a `Nat`), `Float64bits` / `Float64frombits` being mutually inverse is assumed (Go stdlib);
-  * time: the bytes of `value.UTC().MarshalBinary()`; the model carries those bytes, that
-    `UnmarshalBinary` inverts `MarshalBinary` is assumed (Go stdlib);
+  * time: a `time.Time` is modelled by what `UTC`, `MarshalBinary`, `UnmarshalBinary` and `Equal` look at
+    (`GoTime`: the instant as `t.sec()` / `t.nsec()`, the location as "UTC or a zone with this offset",
+    the presence of a monotonic clock reading); `MarshalBinary` / `UnmarshalBinary` are transcribed from
+    Go 1.23 `src/time/time.go` (version byte, 8 + 4 big-endian bytes, zone offset in minutes with -1
+    reserved for UTC, an optional seconds byte in version 2, the refusals) and compared with the real
+    functions by the `tm` / `tu` cases of the harness;
   * Go `nil` vs empty `[]byte` is `Option Bytes` where the code tests it (`GetTypeAndValue` returns
     nil for a value that holds only the type byte; `BytesToDatetime(nil) = nil`).
 -/
@@ -97,9 +101,94 @@ def bytesToBool (buf : Option Bytes) : Option Bool :=
 /-- `BytesToString`: never nil (`string(clone(nil)) = ""`) -/
 def bytesToString (buf : Option Bytes) : Bytes := obytes buf
 
-/-- `BytesToDatetime`: nil for a nil buffer; otherwise `UnmarshalBinary` (assumed to succeed on
-    the bytes `MarshalBinary` produced; the model returns the marshalled bytes themselves) -/
-def bytesToDatetime (buf : Option Bytes) : Option Bytes := buf
+/-! ### `time.Time` and its binary form (Go 1.23 `src/time/time.go`) -/
+
+/-- `t.Location() == UTC`, or any other location (a `FixedZone`, `Local`, a loaded zone) together
+    with the offset `t.Zone()` reports for the instant (seconds east of UTC, a Go `int`) -/
+inductive Loc
+  | utc
+  | zone (offset : Int)
+  deriving DecidableEq, Repr
+
+/-- a `time.Time` as far as `UTC`, `MarshalBinary`, `UnmarshalBinary` and `Equal` look at it:
+    `sec` = `t.sec()` (seconds since January 1, year 1, 00:00:00 UTC; an int64), `nsec` = `t.nsec()`,
+    the location, and whether the value carries a monotonic clock reading (`wall&hasMonotonic`). -/
+structure GoTime where
+  sec : Int
+  nsec : Nat
+  loc : Loc := .utc
+  mono : Bool := false
+  deriving DecidableEq, Repr
+
+/-- `t.UTC()` = `t.setLoc(&utcLoc)`: the monotonic reading is stripped, the location becomes UTC,
+    `sec()` / `nsec()` are unchanged -/
+def GoTime.utc (t : GoTime) : GoTime := { t with loc := .utc, mono := false }
+
+/-- `t.Equal(u)` for two values without monotonic reading (and what the property calls "equal as
+    instants"): same `sec()` and `nsec()`, whatever the locations -/
+def GoTime.sameInstant (t u : GoTime) : Prop := t.sec = u.sec ∧ t.nsec = u.nsec
+
+/-- the `w` big-endian bytes of `n mod 256^w` (`byte(x >> 8*(w-1)), …, byte(x)`) -/
+def be (w n : Nat) : Bytes := (le w n).reverse
+
+/-- `int64(buf[w-1]) | int64(buf[w-2])<<8 | …` -/
+def ofBE (b : Bytes) : Nat := ofLE b.reverse
+
+inductive TimeErr
+  | zoneOffset      -- "Time.MarshalBinary: unexpected zone offset"
+  | noData          -- "Time.UnmarshalBinary: no data"
+  | version         -- "Time.UnmarshalBinary: unsupported version"
+  | length          -- "Time.UnmarshalBinary: invalid length"
+  deriving DecidableEq, Repr
+
+/-- version byte, bytes 1-8 seconds, bytes 9-12 nanoseconds, bytes 13-14 zone offset in minutes -/
+def timeFields (version : UInt8) (t : GoTime) (offsetMin : Int) : Bytes :=
+  version :: (be 8 (toUnsigned 64 t.sec) ++ be 4 t.nsec ++ be 2 (toUnsigned 16 offsetMin))
+
+/-- `Time.MarshalBinary`: offset minutes -1 is the UTC marker, so a zone whose offset truncates to
+    -1 minute (-119 s … -60 s) is refused, as is one beyond an int16 of minutes; an offset that is
+    not a whole number of minutes makes it version 2 with the (Go-truncated) remainder as one more
+    byte.  `/` and `%` on Go ints truncate towards zero (`Int.tdiv` / `Int.tmod`).  The monotonic
+    reading plays no part. -/
+def marshalBinary (t : GoTime) : Except TimeErr Bytes :=
+  match t.loc with
+  | .utc => .ok (timeFields 1 t (-1))
+  | .zone off =>
+    let m := off.tdiv 60
+    if m < -32768 ∨ m = -1 ∨ m > 32767 then .error .zoneOffset
+    else if off.tmod 60 ≠ 0 then .ok (timeFields 2 t m ++ [UInt8.ofNat (toUnsigned 8 (off.tmod 60))])
+    else .ok (timeFields 1 t m)
+
+/-- `wallToInternal`: seconds from year 1 to 1885 -/
+def wallToInternal : Int := 59453308800
+
+/-- `Time.UnmarshalBinary`.  `t.wall = uint64(nsec)` with `nsec` an int32: a pattern with bit 31 set
+    sign-extends into `hasMonotonic` and the wall seconds (which `setLoc` then folds into `ext`), bit
+    30 is outside `nsecMask`; none of that is reachable from bytes `MarshalBinary` wrote.  The seconds
+    byte of version 2 is added as an unsigned byte.  Offset -60 s (minutes = -1) means UTC; otherwise
+    the location is `Local` or a `FixedZone` with that offset (not distinguished here). -/
+def unmarshalBinary (data : Bytes) : Except TimeErr GoTime :=
+  match data with
+  | [] => .error .noData
+  | version :: buf =>
+    if version ≠ 1 ∧ version ≠ 2 then .error .version
+    else if data.length ≠ (if version = 2 then 16 else 15) then .error .length
+    else
+      let sec := toSigned 64 (ofBE (buf.take 8))
+      let n := ofBE ((buf.drop 8).take 4)
+      let offsetMin := toSigned 16 (ofBE ((buf.drop 12).take 2))
+      let offset : Int := offsetMin * 60 + (if version = 2 then (((buf.drop 14).headD 0).toNat : Int) else 0)
+      let sec' : Int := if n < 2 ^ 31 then sec else wallToInternal + (2 ^ 33 - 2 + ((n / 2 ^ 30 % 2 : Nat) : Int))
+      .ok { sec := sec', nsec := n % 2 ^ 30, loc := if offset = -60 then .utc else .zone offset, mono := false }
+
+/-- `BytesToDatetime`: nil for a nil buffer and when `UnmarshalBinary` refuses the bytes -/
+def bytesToDatetime (buf : Option Bytes) : Option GoTime :=
+  match buf with
+  | none => none
+  | some b =>
+    match unmarshalBinary b with
+    | .ok t => some t
+    | .error _ => none
 
 def fieldToBool (t : UInt8) (v : Option Bytes) : Option Bool :=
   if t = typeBool then bytesToBool v else none
@@ -125,7 +214,7 @@ def fieldToFloat64 (t : UInt8) (v : Option Bytes) : Option FloatRead :=
   else if t = typeFloat64 then (bytesToFloat64 v).map .bits
   else none
 
-def fieldToDatetime (t : UInt8) (v : Option Bytes) : Option Bytes :=
+def fieldToDatetime (t : UInt8) (v : Option Bytes) : Option GoTime :=
   if t = typeTime then bytesToDatetime v else none
 
 /-- result of `FieldToString`; `strconv` / `MarshalText` formatting of floats and times is not
@@ -212,6 +301,10 @@ def InInt32 (i : Int) : Prop := -2147483648 ≤ i ∧ i < 2147483648
 def InInt64 (i : Int) : Prop := -9223372036854775808 ≤ i ∧ i < 9223372036854775808
 instance (i : Int) : Decidable (InInt32 i) := by unfold InInt32; infer_instance
 instance (i : Int) : Decidable (InInt64 i) := by unfold InInt64; infer_instance
+
+/-- what every `time.Time` satisfies: `sec()` is an int64, `0 ≤ nsec() < 1e9` -/
+def GoTime.valid (t : GoTime) : Prop := InInt64 t.sec ∧ t.nsec < 1000000000
+instance (t : GoTime) : Decidable t.valid := by unfold GoTime.valid; infer_instance
 
 theorem bytesToInt32_enc (i : Int) (h : InInt32 i) : bytesToInt32 (some (encInt32 i)) = some i := by
   have hl : olen (some (encInt32 i)) = 4 := by simp [olen, encInt32, le_length]
